@@ -61,12 +61,16 @@ def main():
 
     if args.replay:
         case = json.load(open(args.replay, encoding='utf-8'))
-        viols = mod.replay(case['case'])
+        try:
+            viols = mod.replay(case['case'])
+        except Exception as e:  # noqa  (a case recorded by the generic exception guard has no driver-specific replay)
+            viols = []
+            if not args.quiet:
+                print(f'case replay not possible ({type(e).__name__}); falling back to the recorded job')
         unlisted = [v for v in viols if not _listed(v, findings)]
         if not unlisted and case.get('job_fn') and hasattr(mod, case['job_fn']):
             # not reproducible from the single case: re-run the whole job that produced it (the failure may depend on what the same process did before)
-            d = getattr(mod, case['job_fn'])(core.revive(case['job']))
-            d = d.dump() if isinstance(d, core.Acc) else d
+            d = core._guard_inner(getattr(mod, case['job_fn']), core.revive(case['job']))
             d = d.get('acc', d) if isinstance(d, dict) and 'viol' not in d else d
             again = [v for v in d.get('viol', []) if (v['cls'], v['symptom']) == (case['cls'], case['symptom'])]
             keys = {tuple(k) for k, _ in d.get('vkeys', [])}
@@ -84,7 +88,12 @@ def main():
         sys.exit(0)
 
     ctx = core.Ctx(prop, args.tier, seed)
-    mod.run(ctx)
+    try:
+        mod.run(ctx)
+    except Exception:
+        # same rule as for worker jobs (core._guard_inner): an exception raised inside the library is an observation, anything else a harness crash
+        d = core._guard_inner(lambda _job: (_ for _ in ()).throw(sys.exc_info()[1]), 'whole-run')
+        ctx.merge(d)
 
     if ctx.n.get('harness_errors'):
         for c in ctx.caps:
